@@ -110,6 +110,16 @@ class ProgGen:
             if c < 0.8:
                 return [p + "pass"]
             return [p + self.ext()]
+        if r < 0.46:
+            # a conditional both of whose arms are no-ops: the test must still be evaluated
+            t = self.rng.choice(["%s < %s" % (self.ext(), self.ext()), "%s == 1" % self.ext(),
+                                 "%s < %s" % (self.rng.choice(self.vars), self.ext())])
+            out = [p + "if %s:" % t, p + "    pass"]
+            if inloop and self.rng.random() < 0.3:
+                out = [p + "if %s:" % t, p + "    continue"] if self.rng.random() < 0.5 else out
+            if self.rng.random() < 0.3:
+                out += [p + "else:", p + "    pass"]
+            return out
         if r < 0.68:
             out = [p + "if %s:" % self.test()] + self.suite(depth - 1, inloop, ind + 4)
             c = self.rng.random()
